@@ -46,6 +46,19 @@ PredictedTablesValid ==
     /\ Kind = "uniformbig" => \A n \in BigN : (Pow2(P) \div n) >= 1 /\ Pow2(P) - (n - 1) * (Pow2(P) \div n) >= 1
     /\ Kind = "uniform" => \A n \in 2..Pow2(P) : Valid(UniformTable(n, P), P) /\ RoundTrip(UniformTable(n, P), P)
 
+\* Bridge to the unbounded theorem Valid of spec/proofs/LeakyValid.tla (TLAPS): the left cumulatives of FixedPoint.tla are the
+\* theorem's  Left(F, D, x, i) = (F * x) div D + i  with F = 2^P - n, x the cumulative numerator and D the denominator, and the
+\* numerators satisfy the theorem's hypotheses (nondecreasing, at most D)
+PLeft(F, D, x, i) == (F * x) \div D + i
+ProofBridge ==
+    /\ (Kind = "leaky" /\ Len(seq) >= 1 /\ AcceptLeaky(Len(seq) + 1, P)) =>
+          LET n == Len(seq) + 1
+              m == BitLen(MaxVal) - 1
+          IN \A i \in 1..(n - 1) : /\ LeakyLeft(seq, m, n, P, i) = PLeft(Pow2(P) - n, Pow2(m), seq[i], i)
+                                    /\ seq[i] <= Pow2(m) /\ (i > 1 => seq[i - 1] <= seq[i])
+    /\ (Kind = "fast" /\ AcceptFast(seq, P)) =>
+          \A i \in 0..(Len(seq) - 1) : /\ FastLeft(seq, P, i) = PLeft(Pow2(P) - Len(seq), SumSeq(seq), Prefix(seq, i), i)
+                                        /\ Prefix(seq, i) <= Prefix(seq, i + 1) /\ Prefix(seq, i + 1) <= SumSeq(seq)
 Rows(tab) == [i \in 1..Len(tab) |-> <<tab[i][1], tab[i][2], tab[i][3]>>]
 EmitFixed == Kind = "fixed" => PrintT(<<"CASE", ToJson(
     [k |-> "fixed", B |-> B, P |-> P, probs |-> seq,
